@@ -240,6 +240,12 @@ def corpus(ctx):
 
 
 def run(ctx: C.Ctx):
+    from .. import shapes_static, translate_classification
+    shapes_static.run_with_translation(ctx, translate_classification, "Classification", "classification-pipeline", lambda: _run(ctx),
+                                       "regenerated from SSPOC.predict / fit / update_sensors: dispatch = Sspoc.predictKind, training data, solver calls, refit block")
+
+
+def _run(ctx: C.Ctx):
     corpus(ctx)
     for idx in range(ctx.scale(70, 700)):
         check(ctx, idx)
